@@ -64,6 +64,12 @@ func init() {
 	}
 }
 
+func init() {
+	groups["prototest"] = &Group{Name: "prototest", Dir: repoDir, Pkg: "./prototest", PkgDir: repoDir + "/prototest", PkgName: "prototest", Merge: pureMerge, Unwind: 300}
+	groups["protodump"] = &Group{Name: "protodump", Dir: repoDir, Pkg: "./cmd/protodump", PkgDir: repoDir + "/cmd/protodump", PkgName: "main",
+		Targets: []string{csprotoPath}, Merge: pureMerge, StubPkgs: runtimeStubPkgs, Unwind: 300}
+}
+
 var props = map[string]*PropSpec{}
 
 func regProp(p *PropSpec) { props[p.ID] = p }
@@ -81,11 +87,13 @@ func init() {
 	regProp(&PropSpec{ID: "C18", Level: "other", Groups: []string{"csproto"}, QuickTimeout: 600, ThorTimeout: 3000, Witnesses: 200,
 		Explanation: "symbolic execution of all of json.go over message candidates (nil interface, typed nil pointer, real v2 message, real gogo message, legacy v1-style message, a type with its own MarshalJSON/UnmarshalJSON, a non-message pointer) with the five options as symbolic values (each possibly left at its default); the JSON codecs of the three runtimes are logged contract stubs whose receiver structs are read back: the codec is invoked with exactly the options given for all 2^5 valuations at once, nil => (nil,nil) resp. an error, a json.Marshaler/Unmarshaler is called directly, codec errors are propagated, unsupported values are errors. On every native replay the real codecs run: output is valid JSON, round-trips through the adapter and the owning runtime's decoder to an equal message, and every option has its visible effect.",
 		TrustedBase: []string{"protojson / jsonpb (golang and gogo) implement their documented options (symbolic runs use logged stubs; the real codecs are exercised on replay)"}})
+	regProp(&PropSpec{ID: "C20", Level: "model_checking", Groups: []string{"prototest", "protodump"}, QuickTimeout: 900, ThorTimeout: 3000})
 	regProp(&PropSpec{ID: "C19", Level: "model_checking", Groups: []string{"csproto"}, QuickTimeout: 600, ThorTimeout: 3000})
 	for _, id := range []string{"C04", "C05", "C06", "C07", "C08", "C09", "C10", "C17"} {
 		regProp(&PropSpec{ID: id, Level: "model_checking", Groups: []string{"p3", "p2"}, QuickTimeout: 600, ThorTimeout: 3000})
 	}
 	props["C10"].Groups = []string{"p3", "p2", "csproto"}
+	props["C08"].Witnesses = 6000 // every accepting path's witness is decoded by the reference runtime as well (differential clause)
 	regProp(&PropSpec{ID: "C13", Level: "model_checking", Groups: []string{"lazyproto"}, QuickTimeout: 600, ThorTimeout: 3000})
 	regProp(&PropSpec{ID: "C15", Level: "other", Groups: []string{"lazyproto"}, QuickTimeout: 600, ThorTimeout: 3000,
 		Explanation: "thread-modular ownership obligation decided on every feasible single-thread path by symbolic execution + SMT (no schedule is enumerated): after NewDecoder, objects reachable from the Decoder and all package variables are shared; no non-atomic, non-mutex write may target them; pooled results are owned by one goroutine between Get and Put. Isolation of simultaneously live results is checked on the single-thread projection of two goroutines under an adversarial pool model. Ownership violations are replayed as a goroutine workload under the Go race detector.",
